@@ -195,7 +195,7 @@ func (ck *Checker) collect() {
 	// functions under contract
 	for _, name := range ck.C.SortedFuncNames() {
 		fc := ck.C.Funcs[name]
-		if fc.Extern || fc.Slot || fc.Trusted {
+		if fc.Extern || fc.Slot || fc.Trusted || fc.Implements != "" {
 			continue
 		}
 		if ck.only != "" && ck.only != name {
@@ -220,6 +220,7 @@ func (ck *Checker) collect() {
 		}
 		x := NewExec(ck.P, ck.C, fc.Mode)
 		x.Eff = ck.Eff
+		x.Prop = ck.prop
 		obls, err := x.VerifyFunc(fn, fc, name)
 		if err != nil {
 			ck.toolErrs = append(ck.toolErrs, err.Error())
@@ -250,7 +251,19 @@ func (ck *Checker) collect() {
 			}
 			x := NewExec(ck.P, ck.C, sc.Mode)
 			x.Eff = ck.Eff
-			obls, err := x.VerifyFunc(fn, sc, name+"/slot:"+sname)
+			x.Prop = ck.prop
+			use := sc
+			if own, ok := ck.C.Funcs[name]; ok && own.Implements == sname {
+				// merge the function's own assertions and loop clauses into the slot contract
+				m := *sc
+				m.Asserts = append(append([]*Clause{}, sc.Asserts...), own.Asserts...)
+				m.LoopInv = own.LoopInv
+				m.LoopVar = own.LoopVar
+				m.Ensures = append(append([]*Clause{}, sc.Ensures...), own.Ensures...)
+				m.Props = append(append([]string{}, sc.Props...), own.Props...)
+				use = &m
+			}
+			obls, err := x.VerifyFunc(fn, use, name+"/slot:"+sname)
 			if err != nil {
 				ck.toolErrs = append(ck.toolErrs, err.Error())
 			}
@@ -328,6 +341,13 @@ func slotMembers(p *Program, slot string) []*ssa.Function {
 	var out []*ssa.Function
 	add := func(v ssa.Value) {
 		var fn *ssa.Function
+		for {
+			if ct, ok := v.(*ssa.ChangeType); ok {
+				v = ct.X
+				continue
+			}
+			break
+		}
 		switch vv := v.(type) {
 		case *ssa.Function:
 			fn = vv
